@@ -252,6 +252,7 @@ TEMPLATES = {
     'configuration': _T('CONFIGURATION c\n', ('opt', 'VAR_GLOBAL\n  g : INT;\nEND_VAR\n'), 'RESOURCE r ON PLC\n  TASK t(', ('opt', 'INTERVAL := T#100ms, '), 'PRIORITY := 1);\n  PROGRAM ', ('alt', ['', 'RETAIN ', 'NON_RETAIN ']), 'inst', ('opt', ' WITH t'), ' : p',
                         ('alt', ['', '(a := 1)', '(a := 1, o => g)']), ';\nEND_RESOURCE\nEND_CONFIGURATION\n'),
     'configuration_globals': _T('CONFIGURATION c\nVAR_GLOBAL', ('alt', ['', ' CONSTANT', ' RETAIN']), '\n  g', ('opt', ' AT %QX0.0'), ' : ', ('alt', ['INT', 'BOOL']), ('opt', ' := 1'), ';\nEND_VAR\nRESOURCE r ON PLC\n  TASK t(PRIORITY := 1);\n  PROGRAM inst WITH t : p;\nEND_RESOURCE\nEND_CONFIGURATION\n'),
+    'edge_inputs': _T(('alt', ['FUNCTION f : INT\n', 'FUNCTION_BLOCK f\n']), 'VAR_INPUT', ('alt', ['', ' RETAIN', ' NON_RETAIN']), '\n  a : BOOL', ('alt', ['', ' R_EDGE', ' F_EDGE']), ';\n', ('opt', '  c : INT;\n'), 'END_VAR\n', ('alt', ['  f := 1;\nEND_FUNCTION\n', 'END_FUNCTION_BLOCK\n'])),
     'sfc_action_association': _T('FUNCTION_BLOCK fb\nVAR\n  done : BOOL;\n  busy : BOOL;\nEND_VAR\nINITIAL_STEP Start:\nEND_STEP\nSTEP Work:\n  act(', ('alt', ['', 'N', 'R', 'S', 'P']), ('opt', ', done'), ('opt', ', busy'),
                                  ');\nEND_STEP\nTRANSITION FROM Start TO Work\n  := TRUE;\nEND_TRANSITION\nACTION act:\n  done := TRUE;\nEND_ACTION\nEND_FUNCTION_BLOCK\n'),
     'sfc_transition': _T('FUNCTION_BLOCK fb\nVAR\n  done : BOOL;\nEND_VAR\nINITIAL_STEP Start:\nEND_STEP\nSTEP Work:\nEND_STEP\n', ('opt', 'STEP Other:\nEND_STEP\n'), 'TRANSITION ', ('opt', 'tr1 '), ('opt', '(PRIORITY := 2) '), 'FROM ', ('alt', ['Start', '(Start, Work)']),
